@@ -177,6 +177,13 @@ Theorem C04_skew_offdiagonal_partial :
                    ref_skew (evalP rho (s_x si)) (evalP rho (s_g si)) (evalP rho (s_x sj)) (evalP rho (s_g sj)) = 0).
 Proof. exact @skew_offdiagonal_partial. Qed.
 
+(** * known finding F-C04c (BlockSmoothConvexFunction skips by tuple equality) *)
+Theorem C04_block_same_xg_refuted :
+  exists st s1 s2, f_points st = [s1; s2] /\ s_uid s1 <> s_uid s2 /\ s_f s1 <> s_f s2 /\
+                   f_nblocks st = 1%nat /\
+                   g_cons (run_plan plan_BlockSmoothConvexFunction st) = [].
+Proof. exact block_same_xg_refuted. Qed.
+
 (** * (d) every formula found in the sources denotes its literature reference condition *)
 Section Formulas.
   Context {E : ips}.
@@ -364,22 +371,28 @@ Definition ex_s (k : nat) : sample :=
 Definition ex_state (l : list sample) : fstate :=
   mkF "Function_0" (fun _ => 1%Q) (fun _ => false) l [] [] None 6 3 30 0 (fun _ => 0%Q).
 
-(** three samples recorded in two orders: hypotheses of [C04_order_independent] are met; the convex class
-    generates the 6 ordered pairs, the Lipschitz operator class (symmetry=True) the 3 unordered ones *)
+(** (hand-written plans and formula, so that the example does not depend on the generated plans) *)
+Definition ex_f : cterm := CLeS (XSub (XSq (PSub (PVar 1) (PVar 3))) (XSq (PSub (PVar 0) (PVar 2)))) (SNum 0).
+Definition ex_plan (sym : bool) : list plan_item := [Pairs LPoints LPoints "cond" ex_f sym].
+
+(** three samples recorded in two orders: the hypotheses of [C04_plan_order_independent] /
+    [C04_order_independent] are met; without the symmetry flag the 6 ordered pairs are generated, with it the
+    3 unordered ones *)
 Example C04_example :
   let st := ex_state [ex_s 0; ex_s 1; ex_s 2] in
   let st' := ex_state [ex_s 2; ex_s 0; ex_s 1] in
   perm_equiv st st' /\ wf_state st /\ wf_state st' /\
   In ("ConvexFunction"%string, plan_ConvexFunction) all_plans /\
-  List.length (g_cons (run_plan plan_ConvexFunction st)) = 6%nat /\
-  List.length (g_cons (run_plan plan_LipschitzOperator st)) = 3%nat /\
-  sym_formulas plan_LipschitzOperator = [f_LipschitzOperator_lipschitz_continuity_constraint_i_j] /\
-  map c_name (g_cons (run_plan plan_LipschitzOperator st'))
-  = [Some "IC_Function_0_lipschitz_continuity(Point_0, Point_1)"%string;
-     Some "IC_Function_0_lipschitz_continuity(Point_0, Point_2)"%string;
-     Some "IC_Function_0_lipschitz_continuity(Point_1, Point_2)"%string].
+  auto_head_only (ex_plan true) = true /\
+  List.length (g_cons (run_plan (ex_plan false) st)) = 6%nat /\
+  List.length (g_cons (run_plan (ex_plan true) st)) = 3%nat /\
+  sym_formulas (ex_plan true) = [ex_f] /\
+  map c_name (g_cons (run_plan (ex_plan true) st'))
+  = [Some "IC_Function_0_cond(Point_0, Point_1)"%string;
+     Some "IC_Function_0_cond(Point_0, Point_2)"%string;
+     Some "IC_Function_0_cond(Point_1, Point_2)"%string].
 Proof.
-  cbv zeta. split; [|split; [|split; [|split; [|split; [|split; [|split]]]]]].
+  cbv zeta. split; [|split; [|split; [|split; [|split; [|split; [|split; [|split]]]]]]].
   - unfold perm_equiv, ex_state. cbn. repeat split; try reflexivity.
     apply Permutation_sym. apply (Permutation_cons_app [ex_s 0; ex_s 1] [] (ex_s 2)). rewrite app_nil_r. apply Permutation_refl.
   - unfold wf_state, ex_state. cbn [f_points f_stat f_tpoints f_v].
@@ -389,6 +402,7 @@ Proof.
     split; [|split; [intros s []|split; [intros s []|exact I]]].
     intros s [<-|[<-|[<-|[]]]]; unfold wf_sample; cbn; repeat split; apply NoDupKeys_single.
   - unfold all_plans. cbn. tauto.
+  - reflexivity.
   - vm_compute. reflexivity.
   - vm_compute. reflexivity.
   - reflexivity.
@@ -417,4 +431,5 @@ Print Assumptions C04_run_plan_lmis_spec_simple.
 Print Assumptions C04_shipped_plans_auto_head.
 Print Assumptions C04_skew_diagonal_refuted.
 Print Assumptions C04_skew_offdiagonal_partial.
+Print Assumptions C04_block_same_xg_refuted.
 Print Assumptions C04_formulas_all.
